@@ -70,8 +70,10 @@ Section Oracles.
     let buf := xor_at buf pn_off (pn_mask m pnl) in
     (ztake (pn_off + pnl) buf, be_int (ztake pnl (zdrop pn_off buf))).
 
-  Definition hp_remove (hp : K) (pkt : list Z) (pn_off : Z) : list Z * Z :=
-    let '(h, t) := hp_remove_raw hp pkt pn_off in (h, as_c_int t).
+  (* conv = how the uint32_t pn_truncated reaches Python: as_c_int on the pinned tree ("i" format) *)
+  Definition hp_remove_conv (conv : Z -> Z) (hp : K) (pkt : list Z) (pn_off : Z) : list Z * Z :=
+    let '(h, t) := hp_remove_raw hp pkt pn_off in (h, conv t).
+  Definition hp_remove : K -> list Z -> Z -> list Z * Z := hp_remove_conv as_c_int.
 
   (* CryptoContext: aead key, iv, hp key, key phase *)
   Record cctx := mkCtx { c_key : K; c_iv : list Z; c_hp : K; c_phase : Z }.
@@ -101,9 +103,9 @@ Section Oracles.
     else (next_ctx cx, true).
 
   (* CryptoContext.decrypt_packet -> (plain_header, payload, packet_number, key_updated) *)
-  Definition decrypt_packet (cx : cctx) (pkt : list Z) (enc_off expected : Z)
+  Definition decrypt_packet_conv (conv : Z -> Z) (cx : cctx) (pkt : list Z) (enc_off expected : Z)
     : option (list Z * list Z * Z * bool) :=
-    let '(hdr, tpn) := hp_remove (c_hp cx) pkt enc_off in
+    let '(hdr, tpn) := hp_remove_conv conv (c_hp cx) pkt enc_off in
     let first := byte_at hdr 0 in
     let pnl := Z.land first 3 + 1 in
     let pn := decode_packet_number tpn (pnl * 8) expected in
@@ -112,6 +114,8 @@ Section Oracles.
     | Some p => Some (hdr, p, pn, upd)
     | None => None
     end.
+  Definition decrypt_packet : cctx -> list Z -> Z -> Z -> option (list Z * list Z * Z * bool) :=
+    decrypt_packet_conv as_c_int.
 End Oracles.
 
 (* Retry integrity: pseudo packet = len(odcid) || odcid || retry packet without tag (packet.py
@@ -127,6 +131,8 @@ Definition retry_pseudo (odcid pkt_wo_tag : list Z) : list Z := Zlen odcid :: od
    ops:
      1 hdr payload masktab                        -> hp_apply
      2 pkt pn_off masktab                         -> hdr, truncated pn (as C int)
+     12 / 15 = ops 2 / 5 for a tree in which the truncated pn is returned unsigned ("I" format);
+              the harness probes the implementation and picks the variant (docs/C02.md)
      3 iv pn                                      -> nonce
      4 hdr payload pn iv masktab sealtab          -> 0 | 1 packet
      5 pkt enc_off expected phase iv iv_next masktab opentab -> 0 | 1 hdr payload pn updated *)
@@ -183,6 +189,15 @@ Definition exec_protect (toks : list Z) : list Z :=
           out_list h ++ [tpn]
       | _ => []
       end
+  | 12 :: t =>
+      let '(pkt, t) := tk_list t in
+      match t with
+      | pn_off :: t =>
+          let '(mt, _) := tk_tab t in
+          let '(h, tpn) := hp_remove_conv Z (tab_mask mt) (fun v => v) 0 pkt pn_off in
+          out_list h ++ [tpn]
+      | _ => []
+      end
   | 3 :: t =>
       let '(iv, t) := tk_list t in
       match t with pn :: _ => out_list (nonce iv pn) | _ => [] end
@@ -211,6 +226,22 @@ Definition exec_protect (toks : list Z) : list Z :=
           let cx := mkCtx Z 0 iv 0 phase in
           let nx := fun _ : cctx Z => mkCtx Z 1 iv_next 0 (1 - phase) in
           match decrypt_packet Z (tab_mask mt) (tab_open ot) nx cx pkt enc_off expected with
+          | Some (h, p, pn, upd) => 1 :: out_list h ++ out_list p ++ [pn; b2z upd]
+          | None => [0]
+          end
+      | _ => []
+      end
+  | 15 :: t =>
+      let '(pkt, t) := tk_list t in
+      match t with
+      | enc_off :: expected :: phase :: t =>
+          let '(iv, t) := tk_list t in
+          let '(iv_next, t) := tk_list t in
+          let '(mt, t) := tk_tab t in
+          let '(ot, _) := tk_tab t in
+          let cx := mkCtx Z 0 iv 0 phase in
+          let nx := fun _ : cctx Z => mkCtx Z 1 iv_next 0 (1 - phase) in
+          match decrypt_packet_conv Z (tab_mask mt) (tab_open ot) nx (fun v => v) cx pkt enc_off expected with
           | Some (h, p, pn, upd) => 1 :: out_list h ++ out_list p ++ [pn; b2z upd]
           | None => [0]
           end
